@@ -100,6 +100,26 @@ def num_used_field(paths):
     return fields
 
 
+def in_use_counter(F, M):
+    """The descriptor-accounting field of the queue, found where it is maintained (field -= 1 on release / += n on
+    submission), not from the test that is being checked."""
+    dec = set()
+    for b in queue_entry_points(F, M):
+        sg0 = supergraph(F, b['id'], tag='flat', max_depth=0)
+        S0 = sg0.sym
+        for n in sg0.nodes:
+            if n.kind != 'assign' or not n.d['place']['p'] or n.d.get('pty') != 'u16':
+                continue
+            pl = n.d['place']['p'][-1]
+            if not (isinstance(pl, dict) and pl.get('adt') == M.queue_adt):
+                continue
+            v = S0.rvalue(n.id, n.d['rv'])
+            v = v[1] if v[0] == 'field' else v
+            if v[0] == 'bin' and v[1] in ('Sub', 'SubWithOverflow') and fold_const(v[3]) == 1 and v[2][0] in ('load', 'load0') and v[2][1][2] and v[2][1][2][-1][1] == pl['n']:
+                dec.add(pl['n'])
+    return dec.pop() if len(dec) == 1 else None
+
+
 def e3_capacity(F, R, M, add_id, rule='E3', rule1='E1'):
     sg = supergraph(F, add_id, opaque=loop_opaque, tag='loopopaque')
     where = fn_site(F, add_id)
@@ -111,12 +131,16 @@ def e3_capacity(F, R, M, add_id, rule='E3', rule1='E1'):
     R.count('add_paths', len(paths))
     fields = num_used_field(paths)
     bool_fields = [f['name'] for f in F.adts[M.queue_adt]['variants'][0]['fields'] if f['ty'] == 'bool']
-    ctr = [f for f in fields if f not in bool_fields]
     flg = [f for f in fields if f in bool_fields]
-    if len(ctr) != 1:
-        R.abstain(rule, add_id, 'cannot identify the in-use counter among %s' % fields, where)
+    ctr = in_use_counter(F, M)
+    if ctr is None:
+        R.abstain(rule, add_id, 'cannot identify the in-use counter (no u16 field decremented by one on release)', where)
         return
-    ctr = ctr[0]
+    # the two free-running ring indices: their difference is the number of outstanding chains
+    _roles = C05.classify_api(C05.queue_api(F, M))
+    _can = [k for k, v in _roles.items() if v == 'can_pop']
+    tfield = C05.trusted_avail_field(F, M, add_id)
+    lfield = last_used_field(F, M, _can[0]) if _can else None
     # which opaque callee is the indirect form: the one whose body leaks a box
     def is_indirect_callee(fid):
         b = F.bodies.get(fid)
@@ -141,7 +165,7 @@ def e3_capacity(F, R, M, add_id, rule='E3', rule1='E1'):
                     for n_out in range(0, size + 3):
                         if n_in + n_out > size + 2:
                             continue
-                        for ind in ((0, 1) if has_ind else (0,)):
+                        for ind, chains in [(i_, c_) for i_ in ((0, 1) if has_ind else (0,)) for c_ in sorted(set([min(used, 1), used]))]:
                             def leaf(t):
                                 if t[0] == 'call' and t[2].endswith('::len'):
                                     a = strip_ptr(t[3][0])
@@ -159,7 +183,10 @@ def e3_capacity(F, R, M, add_id, rule='E3', rule1='E1'):
                                         return ind
                                     if f in bool_fields:
                                         return 0
-                                    return 0
+                                    if f == tfield:
+                                        return (0xfffe + chains) & 0xffff       # outstanding chains = avail - last_used (across the wrap)
+                                    if f == lfield:
+                                        return 0xfffe
                                 raise Unfoldable(fmt(t))
                             fo = Folder(leaf, generic={'SIZE': size})
                             # evaluate the decision prefix only: conditions up to the first opaque local call / return
@@ -172,11 +199,6 @@ def e3_capacity(F, R, M, add_id, rule='E3', rule1='E1'):
                                         if p.panicked:
                                             ok = False
                                         break
-                                    if derives_from(disc, lambda x: x[0] == 'load0' and x[1][2] and x[1][2][-1][1] not in (ctr,) + tuple(bool_fields)):
-                                        if p.panicked:
-                                            ok = False
-                                            break
-                                        continue
                                     v = fo.ev(disc)
                                     if (kind == 'in' and v not in vals) or (kind != 'in' and v in vals):
                                         ok = False
@@ -203,8 +225,8 @@ def e3_capacity(F, R, M, add_id, rule='E3', rule1='E1'):
                                 else:
                                     want = 'indirect' if use_ind else 'direct'
                             if outcome != want:
-                                bad = 'SIZE=%d in_use=%d inputs=%d outputs=%d indirect=%d: add -> %s, specification -> %s' % (
-                                    size, used, n_in, n_out, ind, outcome, want)
+                                bad = 'SIZE=%d in_use=%d (in %d outstanding chains) inputs=%d outputs=%d indirect=%d: add -> %s, specification -> %s' % (
+                                    size, used, chains, n_in, n_out, ind, outcome, want)
                                 raise StopIteration
     except StopIteration:
         pass
